@@ -1,11 +1,81 @@
 # ------------------------------------------------------------------------------------------------
 # jxl-coding, second unit: histogram / code PARSING for the tractable header forms, LZ77 distance clamp (C04)
 # (extends the harness modules of 20_coding.py; CD/CDM/AN/ANM/PF/PFM/_log2_attrs are defined there)
+#
+# _FS: CBMC keeps heap arrays of at most 64 elements field-sensitive by default; the Vec<Vec<u16>> spine of
+# prefix::with_code_lengths (360 bytes) and the WorkingBucket / Bucket tables of ans::Histogram::parse (256..1024 bytes) are
+# larger, pointers and loop bounds read back from them stay symbolic and the runs end in out-of-memory / 20-min timeouts.
+# With the limit at 1024 the same harnesses take 8..60 s on concrete headers. Precision option only (no effect on soundness).
 # ------------------------------------------------------------------------------------------------
+_FS = ["--max-field-sensitivity-array-size", "1024"]
+_NRC = ["--no-assertion-reach-checks"]
+
+# ---- prefix.rs: simple prefix codes (RFC 7932 3.4) ----
 K("cd2.prefix_simple_lengths", ["C04"], "jxl-coding", PF, PFM, "parse_simple_lengths_contract",
   "bounded:reader = fresh 16-byte Bitstream advanced by <= 7 bits (the header is <= 63 bits); complete over every alphabet_size 2..=2^15 and every header content. "
   "CUT at with_code_lengths (stubbed by its assumed contract 'Ok iff Kraft sum == 1', evaluated on the actual vector)",
   ["prefix::Histogram::parse_simple"],
   "RFC 7932 3.4: NSYM-1 = u(2), NSYM symbols of ALPHABET_BITS = bitlen(alphabet_size-1) bits, tree_select for NSYM 4; the vector handed to the code "
   "construction has alphabet_size entries, lengths 1,1 / 1,2,2 / 2,2,2,2 / 1,2,3,3 at the transmitted symbols in transmission order, 0 elsewhere; "
-  "NSYM 1 = single symbol; symbol >= alphabet_size or duplicate symbols => InvalidPrefixHistogram; exact bit count", timeout=300)
+  "NSYM 1 = single symbol; symbol >= alphabet_size or duplicate symbols => InvalidPrefixHistogram; exact bit count",
+  timeout=300, kani_args=_NRC)
+_e2e = ("real parse_simple -> real with_code_lengths -> real read_symbol: fields read with widths 2 / ALPHABET_BITS / 1; for every coded symbol s the "
+        "bit-reversed canonical codeword (RFC 7932 3.2: by length, equal lengths in SYMBOL order) followed by arbitrary bits decodes to s consuming len[s] bits. "
+        "Header fields through a scripted reader (assumed read_bits / read_bool contract)")
+K("cd2.prefix_simple_e2e_a5", ["C04"], "jxl-coding", PF, PFM, "simple_code_e2e_a5",
+  "bounded:4 concrete headers over alphabet_size 5 (ALPHABET_BITS 3), one per shape 1,1 / 1,2,2 / 2,2,2,2 / 1,2,3,3, symbols in non-monotone order; every codeword, every following stream content",
+  ["prefix::Histogram::parse_simple", "prefix::Histogram::with_code_lengths", "prefix::vec_reverse_bits", "prefix::Histogram::read_symbol"],
+  _e2e, timeout=300, kani_args=_NRC, cbmc_args=_FS)
+K("cd2.prefix_simple_e2e_pow2_rej", ["C04"], "jxl-coding", PF, PFM, "simple_code_e2e_pow2_and_rejections",
+  "bounded:3 concrete accepted headers (alphabet_size 2, 4, 8: ALPHABET_BITS 1, 2, 3) and 6 concrete rejected ones over alphabet_size 5 (4 duplicate patterns, 2 out-of-alphabet symbols)",
+  ["prefix::Histogram::parse_simple", "prefix::Histogram::with_code_lengths", "prefix::vec_reverse_bits", "prefix::Histogram::read_symbol"],
+  _e2e + "; a repeated symbol (the real code construction sees an incomplete code) or a symbol == alphabet_size => InvalidPrefixHistogram",
+  timeout=300, kani_args=_NRC, cbmc_args=_FS)
+
+# ---- ans.rs: binary and flat distribution headers, alias table included ----
+_ansp = ("D[k] for every symbol k = the distribution the header denotes (sum 4096), log_bucket_size = 12 - log_alphabet_size, wf_table, wf_slot for all 4096 slots, "
+         "alias mapping injective (=> bijection onto (s, o), o < D[s]), single_symbol() iff some D == 4096, exactly the header fields read with their widths. "
+         "Alias construction is inline in parse and runs for real. Header fields through a scripted reader (assumed read_bool / read_bits contract)")
+_ansf = ["ans::Histogram::parse", "ans::Histogram::read_u8"]
+K("cd2.ans_parse_binary_las5_a", ["C04", "C02"], "jxl-coding", AN, ANM, "parse_binary_las5_a",
+  "bounded:2 concrete two-symbol headers, log_alphabet_size 5: (v1,v2,u12) = (3,1,1000), (31,0,1); rejected: v1 == v2 = 4; v1 = 32 outside the table",
+  _ansf, "binary form D[v1] = u(12), D[v2] = 4096 - D[v1]; v1 == v2 or max(v1, v2) >= 2^log_alphabet_size => InvalidAnsHistogram. " + _ansp,
+  timeout=300, kani_args=_NRC, cbmc_args=_FS)
+K("cd2.ans_parse_binary_las5_b", ["C04", "C02"], "jxl-coding", AN, ANM, "parse_binary_las5_b",
+  "bounded:3 concrete two-symbol headers, log_alphabet_size 5: (5,9,128) D == bucket size, (2,7,0) => one-symbol distribution on v2, (0,1,4095)",
+  _ansf, "binary form. " + _ansp, timeout=300, kani_args=_NRC, cbmc_args=_FS)
+K("cd2.ans_parse_flat_las5_a", ["C04", "C02"], "jxl-coding", AN, ANM, "parse_flat_las5_a",
+  "bounded:flat headers with alphabet_size 2, 3, 6 at log_alphabet_size 5", _ansf,
+  "flat form: D[i] = floor(4096 / alphabet_size) + (i < 4096 mod alphabet_size ? 1 : 0) for i < alphabet_size, 0 above. " + _ansp,
+  timeout=300, kani_args=_NRC, cbmc_args=_FS)
+K("cd2.ans_parse_flat_las5_b", ["C04", "C02"], "jxl-coding", AN, ANM, "parse_flat_las5_b",
+  "bounded:flat headers with alphabet_size 5, 32 (= table size), 1 (=> single symbol) at log_alphabet_size 5; alphabet_size 33 rejected", _ansf,
+  "flat form; alphabet_size > 2^log_alphabet_size => InvalidAnsHistogram. " + _ansp, timeout=300, kani_args=_NRC, cbmc_args=_FS)
+for _sfx, _rng in (("t1", "4, 7, 8, 9"), ("t2", "10..13"), ("t3", "14..17"), ("t4", "18..21"), ("t5", "22..25"), ("t6", "26..29"),
+                   ("t7", "30, 31; alphabet_size 256 rejected")):
+    K("cd2.ans_parse_flat_las5_" + _sfx, ["C04", "C02"], "jxl-coding", AN, ANM, "parse_flat_las5_" + _sfx,
+      "bounded:flat headers with alphabet_size %s at log_alphabet_size 5 (with _a, _b and _t1.._t7: EVERY flat header of a 32-entry table)" % _rng, _ansf,
+      "flat form. " + _ansp, tier="thorough", timeout=900, kani_args=_NRC, cbmc_args=_FS)
+K("cd2.ans_parse_las6_samples", ["C04", "C02"], "jxl-coding", AN, ANM, "parse_las6_samples",
+  "bounded:log_alphabet_size 6: flat 5, flat 64, binary (40,1,77); flat 65 rejected", _ansf, "flat and binary forms. " + _ansp,
+  tier="thorough", timeout=1200, kani_args=_NRC, cbmc_args=_FS)
+K("cd2.ans_parse_las7_samples", ["C04", "C02"], "jxl-coding", AN, ANM, "parse_las7_samples",
+  "bounded:log_alphabet_size 7: flat 5, binary (100,127,3000)", _ansf, "flat and binary forms. " + _ansp,
+  tier="thorough", timeout=1200, kani_args=_NRC, cbmc_args=_FS)
+
+# ---- lib.rs: LZ77 distance ----
+K("cd2.lz77_special_distances_table", ["C04"], "jxl-coding", CD, CDM, "special_distances_table_is_the_distance_map", "complete", [],
+  "the harness module's transcription of kSpecialDistances (the spec side of cd2.lz77_distance_*) is the unique ordering of the 120 offsets "
+  "0 <= y <= 7, -7 <= x <= 8, (y > 0 or x > 0) by norm, then y descending, then x > 0 first", timeout=120, attrs=_log2_attrs)
+_lzc = ("starts with no copy pending; requires lz_inv, min_length in 3..=264, dist_multiplier <= 306783377 (i32 range of offset + multiplier * dist; NOT checked by callers); "
+        "ensures for a token >= min_symbol: copy_pos' = num_decoded - min(distance, num_decoded, 2^20) + 1 with distance = d + 1 / d - 119 / max(1, kSpecialDistances[d][0] + multiplier * kSpecialDistances[d][1]), "
+        "num_to_copy' = ReadUint(lz_len_conf, token - min_symbol) + min_length - 1 (overflow => InvalidLz77Symbol), value = window[(num_decoded - distance) mod 2^20], "
+        "appended at num_decoded mod 2^20, window.len' = min(num_decoded + 1, 2^20); literal tokens leave the copy state alone; Err decodes nothing. "
+        "Symbol and hybrid-integer readers stubbed by recording stubs (arbitrary token <= 65535 or error / arbitrary u32)")
+_lzf = ["DecoderInner::read_varint_with_multiplier_clustered_lz77", "DecoderInner::lz_dist_cluster"]
+_lzk = ("bounded:window contents = zero except ONE symbolic cell at a symbolic index (2^20-entry ring as a symbolic-size allocation: CBMC array theory); "
+        "complete over every num_decoded in 1..2^32-2 (before, at and after the wrap-around), every raw distance u32, every raw length, tokens, min_symbol, min_length, ")
+K("cd2.lz77_distance_mult0", ["C01", "C04"], "jxl-coding", CD, CDM, "lz77_distance_clamp_mult0", _lzk + "dist_multiplier == 0", _lzf, _lzc,
+  timeout=300, attrs=_log2_attrs, kani_args=_NRC)
+K("cd2.lz77_distance_special", ["C01", "C04"], "jxl-coding", CD, CDM, "lz77_distance_clamp_special", _lzk + "every dist_multiplier in 1..=306783377", _lzf, _lzc,
+  timeout=300, attrs=_log2_attrs, kani_args=_NRC)
